@@ -32,6 +32,7 @@ pub struct Case {
     pub alpha: f64,
     pub target_shape: f64,
     pub cepstrum: Vec<f64>,
+    pub gain_shift: f64,
 }
 
 pub const RATES: &[usize] = &[16000, 8000, 22050, 44100, 48000, 96000];
@@ -49,7 +50,9 @@ pub fn shape_max(c: &[f64], alpha: f64, grid: usize) -> f64 {
 pub fn gen_cepstrum(t: &mut Tape, len: usize, alpha: f64, target: f64) -> Vec<f64> {
     let decay = t.uniform(0.6, 0.97);
     let mut c = vec![0.0; len];
-    c[0] = t.uniform(-3.0, 3.0);
+    // the gain term: mostly moderate, sometimes very small or large (the filter is linear, the
+    // spectrum law must hold at any level)
+    c[0] = if t.chance(0.7) { t.uniform(-3.0, 3.0) } else { t.uniform(-40.0, 8.0) };
     let mut scale = 1.0;
     for ci in c.iter_mut().skip(1) {
         *ci = t.gauss() * scale;
@@ -92,7 +95,7 @@ impl Prop for MlsaSpectrum {
         "mlsa-spectrum".into()
     }
     fn rule(&self) -> String {
-        "vector length 2..40, alpha in {0} u [0,0.6], rate in {8k,16k,22.05k,44.1k,48k,96k}, cepstrum = Gaussian x geometric decay with c0 in [-3,3] and shape max|log H - b0| scaled to a target in [0.2,2]; DFT log-magnitude of the pulse response (frame 1 and frame 2) on 65/257 frequencies vs sum_m c_m cos(m w~) within 0.01 neper. Non-trivial: shape >= 0.5 neper and the reference response decays inside the window".into()
+        "vector length 2..40, alpha in {0} u [0,0.6], rate in {8k,16k,22.05k,44.1k,48k,96k}, cepstrum = Gaussian x geometric decay with c0 in [-3,3] and shape max|log H - b0| scaled to a target in [0.2,2]; DFT log-magnitude of the pulse response (frame 1 and frame 2) on 65/257 frequencies vs sum_m c_m cos(m w~) within 0.01 neper; c0 in [-3,3] (70 %) or [-40,8]; additionally shifting c0 by d in [-35,6] must scale the response by exp(d) to 1e-9 of its peak. Non-trivial: shape >= 0.5 neper and the reference response decays inside the window".into()
     }
     fn tape_len(&self, _: Tier) -> usize {
         4 * 42 + 16
@@ -110,7 +113,8 @@ impl Prop for MlsaSpectrum {
         };
         let target_shape = t.uniform(0.2, 2.0);
         let cepstrum = gen_cepstrum(t, len, alpha, target_shape);
-        Case { rate, alpha, target_shape, cepstrum }
+        let gain_shift = if t.chance(0.5) { t.uniform(-6.0, 6.0) } else { t.uniform(-35.0, 6.0) };
+        Case { rate, alpha, target_shape, cepstrum, gain_shift }
     }
     fn check(&self, c: &Case) -> Result<Report, Failure> {
         let tier_k = if std::env::var("VERIF_TIER").ok().as_deref() == Some("thorough") { 257 } else { 65 };
@@ -142,7 +146,26 @@ impl Prop for MlsaSpectrum {
             );
             rep.metric("max_logmag_error_neper", worst.0);
         }
+        // homogeneity: shifting c0 by d scales the whole response by exp(d) (the filter is linear)
+        let d = c.gain_shift;
+        let mut shifted = c.cepstrum.clone();
+        shifted[0] += d;
+        let m2 = measure_pulse(&shifted, 0, false, c.rate, c.alpha, 0.0, 1.0);
+        let g = d.exp();
+        let peak = m.frame1.iter().fold(0.0f64, |a, x| a.max(x.abs())) * g;
+        let mut worst = 0.0f64;
+        for (a, b) in m2.frame1.iter().zip(&m.frame1) {
+            worst = worst.max((a - g * b).abs() / peak.max(1e-300));
+        }
+        rep.metric("max_homogeneity_error_rel_peak", worst);
+        ensure!(
+            worst <= 1e-9,
+            "mlsa-gain-scaling",
+            "shifting c0 by {} does not scale the pulse response by exp({}): deviation {:e} of the peak (c0 {}, alpha {}, order {})",
+            d, d, worst, c.cepstrum[0], c.alpha, c.cepstrum.len() - 1
+        );
         rep.nontrivial = c.target_shape >= 0.5;
+        rep.class_if(c.cepstrum[0] < -10.0, "very-small-gain");
         rep.class_if(c.alpha == 0.0, "alpha=0");
         rep.class_if(c.cepstrum.len() <= 3, "len<=3");
         rep.class_if(c.cepstrum.len() >= 35, "len>=35");
